@@ -332,8 +332,13 @@ func multiWorker(idx, k int) {
 }
 
 func workerMain(job string) {
-	// job = entryIndex|c|s|rep   or   m|entryIndex|k
+	// job = entryIndex|c|s|rep   or   m|entryIndex|k   or   f|entryIndex|fault
 	f := strings.Split(job, "|")
+	if f[0] == "f" {
+		idx, _ := strconv.Atoi(f[1])
+		faultWorker(idx, f[2])
+		return
+	}
 	if f[0] == "m" {
 		idx, _ := strconv.Atoi(f[1])
 		k, _ := strconv.Atoi(f[2])
@@ -511,6 +516,16 @@ func main() {
 		sig := r.LoadReplay(&a)
 		fmt.Printf("replaying %s: all %d environments of %s\n", sig, len(cs)*len(ss)*reps, a.Entry)
 		for i, e := range es {
+			if e.Name == a.Entry && a.Kind == "fault" {
+				outs := runFaults(i, faultSpecs(false), scr)
+				for _, o := range outs {
+					for _, run := range o.Runs {
+						fmt.Printf("  fault=%-8s good=%#x -> %s delivered=%d source_failed=%v %s%s\n", o.Spec, run.Good, run.Outcome, run.Delivered, run.Failed, run.Secret, run.Detail)
+					}
+				}
+				judgeFaults(r, e, outs, &faultStats{})
+				continue
+			}
 			if e.Name == a.Entry && a.Kind == "multi" {
 				o := runMulti(i, a.Calls, scr)
 				d := judgeMulti(r, e, o)
@@ -531,9 +546,15 @@ func main() {
 
 	all := make([][]runOut, len(es))
 	multi := make([]multiOut, len(es))
-	par.Go(2*len(es), func(j int) {
-		i := j / 2
-		if j%2 == 0 {
+	faults := make([][]faultOut, len(es))
+	specs := faultSpecs(r.Thorough())
+	par.Go(3*len(es), func(j int) {
+		i := j / 3
+		if j%3 == 2 {
+			d := filepath.Join(scr, fmt.Sprintf("f%d", i))
+			os.MkdirAll(d, 0o755)
+			faults[i] = runFaults(i, specs, d)
+		} else if j%3 == 0 {
 			d := filepath.Join(scr, fmt.Sprintf("e%d", i))
 			os.MkdirAll(d, 0o755)
 			all[i] = runEntry(i, d)
@@ -544,6 +565,7 @@ func main() {
 		}
 	})
 	st := &stats{}
+	fst := &faultStats{}
 	multiCalls, multiPairs := 0, 0
 	var samples []interface{}
 	summary := map[string]interface{}{}
@@ -557,6 +579,7 @@ func main() {
 				minDrawn = o.Drawn
 			}
 		}
+		judgeFaults(r, e, faults[i], fst)
 		dm := judgeMulti(r, e, multi[i])
 		multiCalls += len(multi[i].Secrets)
 		multiPairs += len(multi[i].Secrets) * (len(multi[i].Secrets) - 1) / 2
@@ -575,15 +598,20 @@ func main() {
 		"the clock is varied by running twice, not shifted")
 	os.RemoveAll(scr)
 	r.Finish(evid.Coverage{
-		"evaluations":         st.runs + multiCalls,
-		"distinct_nontrivial": st.pairs + multiPairs,
-		"rule": fmt.Sprintf("%d entry points x secure-stream byte %v x math/rand seed %v x %d repetitions, one worker subprocess per run; every pair of runs of one entry point is compared (equal stream => equal secret; different stream => different secret) and secure bytes drawn >= secret bytes. Second family: every entry point called k times (256; keystore entry points 96; thorough x4) in ONE process with crypto/rand.Reader := repetition-free counter stream (SHA-256 of a block counter): the k secrets must be pairwise distinct and secure bytes drawn >= k x secret bytes. non-trivial = pairs of distinct runs/calls in which both produced their secret", len(es), cs, ss, reps),
+		"evaluations":         st.runs + multiCalls + fst.runs,
+		"distinct_nontrivial": st.pairs + multiPairs + fst.failedCleanly + fst.pairsCompared,
+		"rule": fmt.Sprintf("%d entry points x secure-stream byte %v x math/rand seed %v x %d repetitions, one worker subprocess per run; every pair of runs of one entry point is compared (equal stream => equal secret; different stream => different secret) and secure bytes drawn >= secret bytes. Second family: every entry point called k times (256; keystore entry points 96; thorough x4) in ONE process with crypto/rand.Reader := repetition-free counter stream (SHA-256 of a block counter): the k secrets must be pairwise distinct and secure bytes drawn >= k x secret bytes. Third family: every entry point under faulty secure sources (always failing; healthy but at most 1/16/31 bytes per read; k good bytes then failing for good, k in the listed set) x good byte {0x11,0x22}: the entry point fails cleanly, or its secret was delivered by the stream (good bytes delivered >= secret bytes; directly observed secrets differ at every byte position between the two good-byte values, image-observed secrets differ). non-trivial = pairs of distinct runs/calls in which both produced their secret + faulty-source runs that failed cleanly + faulty-source success pairs compared", len(es), cs, ss, reps),
 		"exhaustive":              true,
 		"entry_points":            len(es),
 		"runs":                    st.runs,
 		"pairs_compared":          st.pairs,
 		"pairs_same_stream":       st.pairsSameC,
 		"pairs_different_stream":  st.pairsDiffC,
+		"faulty_source_faults":          specs,
+		"faulty_source_runs":            fst.runs,
+		"faulty_source_failed_cleanly":  fst.failedCleanly,
+		"faulty_source_succeeded":       fst.ok,
+		"faulty_source_pairs_compared":  fst.pairsCompared,
 		"counter_stream_calls":    multiCalls,
 		"counter_stream_pairs":    multiPairs,
 		"per_entry":               summary,
